@@ -321,6 +321,9 @@ def rterm(rng, name, dec, classes=None, formula_vars=("x",), wide=False) -> dict
         for x in xs:
             v = x * scale // 10
             t["p"] += [{"k": "num", "neg": v < 0, "hi": "", "ip": abs(v) // scale, "fp": abs(v) % scale}, rnum(rng, dec, 0.0, 1.0, special=0)]
+        if len(xs) >= 2 and rng.random() < 0.25:     # a point written twice in a row (two segments joined end to end): the table keeps both
+            j_ = 2 * rng.randrange(len(xs))
+            t["p"][j_:j_] = [dict(t["p"][j_]), dict(t["p"][j_ + 1])]
         if len(xs) >= 2 and rng.random() < 0.2:      # open-ended tables: the first / last abscissa infinite
             if rng.random() < 0.6:
                 t["p"][0] = dict(NINF)
